@@ -122,7 +122,11 @@ pub fn check_input(b: &[u8], rep: &mut Report) {
         rep.violation("C15.nak.bound", format!("input len {} produced {} entries > bound {}", b.len(), a.len(), bound));
     }
     let full = full_nak_expansion_len(b);
-    if full <= 1000 {
+    let flagged_end = rc::nak_has_flagged_range_end(b);
+    if flagged_end {
+        rep.count("nak.unspecified_flagged_range_end");
+    }
+    if full <= 1000 && !flagged_end {
         let r = rc::srt_nak(b);
         if a.as_slice() != r.as_slice() {
             rep.violation(
